@@ -89,8 +89,8 @@ Print Assumptions C04_tamper_rejected.
 (* ... so no application message is delivered over the tampered channel, whatever follows the
    first protected frame and whichever whole-message API reads it. *)
 Theorem C04_no_data_after_tamper :
-  forall api, api = ApiComplete \/ api = ApiMessage ->
-  forall (opsA opsB : list cop) (A B : stream) (k ivA ivB : bytes) (A1 B1 : stream)
+  forall (api : rapi)
+         (opsA opsB : list cop) (A B : stream) (k ivA ivB : bytes) (A1 B1 : stream)
          (d : bytes) (fl : N) (A2 : stream) (f f' : frame) (ivo : option bytes) (rest : list frame) (n : nat),
     clear_run new_stream opsA = Some A -> clear_run new_stream opsB = Some B ->
     set_key A k ivA = SOk A1 -> set_key B k ivB = SOk B1 ->
@@ -99,10 +99,14 @@ Theorem C04_no_data_after_tamper :
     (sent_bytes opsA <> recvd_bytes opsB \/ recvd_bytes opsA <> sent_bytes opsB) ->
     snd (fst (fst (recv_upto api B1 n (f' :: rest)))) = [].
 Proof.
-  intros api Hapi opsA opsB A B k ivA ivB A1 B1 d fl A2 f f' ivo rest n RA RB KA KB Hs Hct Hdiff.
+  intros api opsA opsB A B k ivA ivB A1 B1 d fl A2 f f' ivo rest n RA RB KA KB Hs Hct Hdiff.
   destruct (C04_tamper_rejected _ _ _ _ _ _ _ _ _ _ _ _ _ _ _ RA RB KA KB Hs Hct Hdiff) as [e He].
   destruct n as [|n]; [reflexivity|].
   cbn [recv_upto]. destruct (recv_frame_we B1 f') as [B2 [x|e']] eqn:Er; cbn [snd] in He; [discriminate|].
-  destruct Hapi as [-> | ->]; cbn [recv_one recv_complete recv_msg_frames]; rewrite Er; reflexivity.
+  destruct api; cbn [recv_one recv_complete recv_msg_frames].
+  - rewrite Er. reflexivity.
+  - unfold recv_sre, start_read. destruct (in_msg B1); [reflexivity|].
+    cbn [read_next]. rewrite Er. reflexivity.
+  - rewrite Er. reflexivity.
 Qed.
 Print Assumptions C04_no_data_after_tamper.
